@@ -22,7 +22,7 @@ RULE = ("round trip: generated configurations over every subset of the 15 option
         "never-used profile -, to a path with extension, to a path without extension, to config.<ext> inside the profile "
         "directory) and loaded through ConfigManager.load by that path or by profile name. Crash: a save of configuration B over "
         "an existing profile holding A is executed under the crash-point recorder; every distinct on-disk state observed at a "
-        "C-call boundary is loaded by profile name and must equal A or B. Profile API: the configuration is loaded through "
+        "C-call boundary is loaded by profile name and must equal A or B; in that state a further save (A again, or a third generated configuration) must then be what the profile loads. Profile API: the configuration is loaded through "
         "YowProfile(name).config, changed through the field setters, written with YowProfile.write_config under the recorder and "
         "loaded by a fresh YowProfile (what the noise layer does when the server key changes). Non-trivial = at least 3 optional fields, or a "
         "non-ASCII value, or a crash case (each crash state counts as one evaluation). Distinct = distinct canonical JSON.")
